@@ -13,4 +13,18 @@ PENDING = {
  "C16": "claimed by design (DESIGN.md §6) but its engine is not built yet",
  "C19": "claimed by design (DESIGN.md §6) but its engine is not built yet",
 }
-CLAIMED = {}
+TB = "Trusted base: SimNet / SimCurl / SimAlloc model the kernel TCP stack, libcurl and the allocator (DESIGN.md 2.2-2.4); the reference KSI world (ref/*.cc) is independent of libksi and validated against the SDK's acceptance of honest replies in every run; sampling, not proof."
+CLAIMED = {
+ "C13": {"engine": "async", "category": "exploration",
+  "technique": "deterministic simulation: seeded schedules of add/run/deliver/server-reply/fault ops against real net_async.c + net_tcp_async.c / net_http_curl_async.c on a simulated socket layer, libcurl and clock; history oracles (exactly-once, response and error soundness, cache-full and pending-count identities, bounded liveness after quiesce)",
+  "text": "Seeded search over interleavings and fault sequences of the asynchronous service with a reference aggregator/extender behind simulated TCP and HTTP; every run is checked online against a history model. Right level because the property quantifies over schedules and network behaviours no unit test reaches; a clean batch is evidence, not proof.",
+  "note": TB, "design_ref": "DESIGN.md 6 (C13), 2, 3"},
+ "C14": {"engine": "async", "category": "exploration",
+  "technique": "deterministic simulation: arbitrary segmentation, partial sends, would-block, close/reset/refuse/black-hole at arbitrary byte offsets on simulated TCP; oracles on the outgoing byte stream (whole PDUs in submission order), reassembly-buffer discipline, no spinning, recovery on a fresh connection",
+  "text": "Seeded search over chunkings and fault positions of the TCP byte streams under the real async and blocking TCP clients; the wire is parsed by an independent TLV codec. Sampling of a space too large to enumerate.",
+  "note": TB, "design_ref": "DESIGN.md 6 (C14)"},
+ "C06": {"engine": "async", "category": "exploration",
+  "technique": "deterministic simulation with a tamper fault: every request PDU reaching a simulated server is re-MACed by an independent HMAC; replies are bit-flipped, truncated, spliced, re-keyed, re-framed in flight and must never be delivered as content",
+  "text": "Independent MAC check of every request at every simulated endpoint in every run, and in-flight corruption of replies with the oracle that content reaches the caller only from PDUs that verify under the configured key and algorithm as delivered.",
+  "note": TB, "design_ref": "DESIGN.md 6 (C06)"},
+}
